@@ -4,12 +4,23 @@
 EXTENDS WSNetConn, Json, IOUtils, SequencesExt
 N == IF "N" \in DOMAIN IOEnv THEN atoi(IOEnv.N) ELSE 4
 RECURSIVE Runs(_, _, _)
+(* every enabled behaviour of at most k more operations from state s, with the state it ends in *)
 Runs(s, acc, k) ==
-  {acc} \cup (IF k = 0 THEN {} ELSE
+  {[steps |-> acc, st |-> s]} \cup (IF k = 0 THEN {} ELSE
      UNION { LET r == Step(s, op) IN Runs(r.s, Append(acc, [op |-> op, obs |-> r.obs, n |-> IF "n" \in DOMAIN r THEN r.n ELSE 0]), k - 1)
              : op \in {o \in Ops : Enabled(s, o)} })
+(* probes appended to every behaviour: sticky states (EOF, expired, closed) must survive an idle expiry and a reset *)
+Probes == { <<"rdlPast", "rdlZero", "read1">>, <<"rdlPast", "read1", "rdlFuture", "read1">>, <<"wdlPast", "wdlZero", "write2">>,
+            <<"read1", "read1">>, <<"rdlPast", "wdlPast", "rdlZero", "wdlZero", "write2", "read1">> }
+RECURSIVE Extend(_, _, _)
+Extend(s, acc, p) == IF p = <<>> THEN acc
+                     ELSE IF ~Enabled(s, Head(p)) THEN <<>>
+                     ELSE LET r == Step(s, Head(p)) IN Extend(r.s, Append(acc, [op |-> Head(p), obs |-> r.obs, n |-> IF "n" \in DOMAIN r THEN r.n ELSE 0]), Tail(p))
 Useful(run) == run # <<>> /\ \E i \in 1..Len(run) : run[i].op \notin {"send1", "send0", "send3", "sendWrong", "rdlZero", "wdlZero"}
-Rows == SetToSeq({ [steps |-> r] : r \in { x \in Runs(S0, <<>>, N) : Useful(x) /\ (Len(x) = N \/ x[Len(x)].obs \in {"eof", "error", "wrongtype", "active"}) } })
+Base == Runs(S0, <<>>, N)
+Plain == { x.steps : x \in { y \in Base : Useful(y.steps) /\ (Len(y.steps) = N \/ y.steps[Len(y.steps)].obs \in {"eof", "error", "wrongtype", "active"}) } }
+Probed == { Extend(x.st, x.steps, p) : x \in { y \in Base : Len(y.steps) <= N - 1 /\ Len(y.steps) >= 1 }, p \in Probes } \ {<<>>}
+Rows == SetToSeq({ [steps |-> r] : r \in Plain \cup Probed })
 ASSUME PrintT(<<"rows", Len(Rows)>>)
 ASSUME ndJsonSerialize(IOEnv.OUT, Rows)
 =============================================================================
